@@ -401,8 +401,12 @@ package res
 //@   modifies alloc, res.Match.Handler, res.Match.Listeners, res.Match.Params, res.Match.Group
 //@
 //@ func (s *Service) runWith(wid string, cb func())
-//@   requires s != nil
-//@   modifies res.Service.rwork, res.Service.workqueue, alloc
+//@   requires s != nil && cb != nil
+//@   modifies res.Service.rwork, res.Service.workqueue, alloc, res.work.s, res.work.wid, res.work.queue, res.work.single, map:res.Service.rwork, elems:res.Service.workqueue, elems:res.work.queue, ghost.wst, ghost.qpos
+//@   ghost unlock 2 before :: assert accepted.new: w != nil && len(w.queue) == 1 && w.queue[0] == cb && same(w.wid, wid)
+//@   ghost unlock 2 before :: set wst = store(wst, ref(w), 1)
+//@   ghost unlock 2 before :: set qpos = store(qpos, ref(w), qhead + len(s.workqueue) - 1)
+//@   ghost unlock 3 before :: assert accepted.append: w != nil && wst[ref(w)] != 0 && len(w.queue) >= 1 && w.queue[len(w.queue)-1] == cb && keyid(w.wid) == keyid(wid)
 //@
 //@ func (s *Service) processRequest(m *nats.Msg, rtype string, rname string, method string, mh *Match)
 //@   requires s != nil && m != nil && !isNil(s.nc)
@@ -656,3 +660,79 @@ package res
 //@   ensures prefix: bytes(out)[0:7] == "{\"rid\":"
 //@   ensures body: forall(k, 0, jlen(string(r)), bytes(out)[7+k] == jchar(string(r), k))
 //@   ensures suffix: bytes(out)[len(out)-13:] == ",\"soft\":true}"
+//@
+//@ # ================================================================ worker groups (C01, C02, C03)
+//@ props C01 C02 C03
+//@ # ghost state of the work-queue monitor (DESIGN.md section 9, C01-C03)
+//@ ghostvar wst arr
+//@ ghostvar wholder arr
+//@ ghostvar wincb arr
+//@ ghostvar closing bool
+//@ ghostvar qhead int
+//@ ghostvar qpos arr
+//@ # wst[w]: 0 = dead / not yet created, 1 = queued in s.workqueue, 2 = being processed by thread wholder[w]
+//@ # wincb[w] = 1 while a callback of work item w executes (outside the lock)
+//@ # qpos[w] - qhead: index of a queued work item in s.workqueue
+//@ monitor svc
+//@   lock res.Service.mu
+//@   cond res.Service.workcond
+//@   protects res.Service.rwork, res.Service.workqueue, res.Service.workbuf, res.work.queue, elems:res.Service.workqueue, elems:res.work.queue, map:res.Service.rwork
+//@   owns wst, wholder, wincb, closing, qhead, qpos
+//@   invariant I0: s.rwork != nil
+//@   invariant I1: imp(s.workqueue != nil, forall(a, 0, len(s.workqueue), s.workqueue[a] != nil && wst[ref(s.workqueue[a])] == 1 && qpos[ref(s.workqueue[a])] == qhead + a))
+//@   invariant I2: imp(!closing, forallge(w, 1, imp(wst[w] == 1, s.workqueue != nil && 0 <= qpos[w] - qhead && qpos[w] - qhead < len(s.workqueue) && ref(s.workqueue[qpos[w] - qhead]) == w)))
+//@   invariant I3: forallge(w, 1, imp(wst[w] != 0 && len(asptr(w, "*res.work").wid) != 0, s.rwork != nil && mapHasId(s.rwork, keyid(asptr(w, "*res.work").wid)) && ref(mapValId(s.rwork, keyid(asptr(w, "*res.work").wid))) == w))
+//@   invariant I4: forallint(k, imp(mapHasId(s.rwork, k), mapValId(s.rwork, k) != nil && wst[ref(mapValId(s.rwork, k))] != 0 && len(mapValId(s.rwork, k).wid) != 0 && keyid(mapValId(s.rwork, k).wid) == k))
+//@   invariant I7: imp(closing, s.workqueue == nil)
+//@   invariant I8: forallge(w, 1, imp(wincb[w] == 1, wst[w] == 2))
+//@   invariant I9: forallge(w, 1, imp(wst[w] != 0, asptr(w, "*res.work").s == s))
+//@   invariant I11: forallge(w, 1, imp(wst[w] != 0, forall(k, 0, len(asptr(w, "*res.work").queue), asptr(w, "*res.work").queue[k] != nil)))
+//@   invariant I12: forallge(w, 1, imp(wst[w] != 0, w < nextRef() && ref(asptr(w, "*res.work").queue) < nextRef() && (ref(asptr(w, "*res.work").queue) == subref(w, 2) || ref(asptr(w, "*res.work").queue) >= 1)))
+//@   invariant I14: forallge(w1, 1, forallge(w2, 1, imp(wst[w1] != 0 && wst[w2] != 0 && w1 != w2, ref(asptr(w1, "*res.work").queue) != ref(asptr(w2, "*res.work").queue))))
+//@   invariant I10: forallint(w, imp(w < 1, wst[w] == 0)) && forallint(w, wst[w] == 0 || wst[w] == 1 || wst[w] == 2)
+//@   # C01: two callbacks of the same non-empty group never execute at the same instant
+//@   invariant X1: forallge(w1, 1, forallge(w2, 1, imp(wincb[w1] == 1 && wincb[w2] == 1 && len(asptr(w1, "*res.work").wid) != 0 && len(asptr(w2, "*res.work").wid) != 0 && keyid(asptr(w1, "*res.work").wid) == keyid(asptr(w2, "*res.work").wid), w1 == w2)))
+//@   rely R1: forallge(w, 1, imp(old(wholder[w]) == t && old(wst[w]) == 2, wst[w] == 2 && wholder[w] == t && wincb[w] == old(wincb[w])
+//@       && len(asptr(w, "*res.work").queue) >= len(old(asptr(w, "*res.work").queue)) && forall(k, 0, len(old(asptr(w, "*res.work").queue)), asptr(w, "*res.work").queue[k] == old(asptr(w, "*res.work").queue[k]))))
+//@   rely R2: imp(old(closing), closing)
+//@
+//@ # callbacks run by workers are client code: they cannot touch the identity of work items or the service's lock
+//@ # (a panic in a With callback is not recovered by the library: assumed not to happen; request callbacks
+//@ # are processRequest closures, proved not to panic under C04)
+//@ func callback.workCB(self ref)
+//@   modifies all
+//@   ensures unchanged("res.work.wid", "res.work.s")
+//@
+//@ func (w *work) processQueue()
+//@   holds svc
+//@   requires nn: w != nil && w.s != nil
+//@   requires own: wst[ref(w)] == 2 && wholder[ref(w)] == me && wincb[ref(w)] == 0
+//@   requires i0: w.s.rwork != nil
+//@   requires inv: moninv(w.s)
+//@   modifies all
+//@   callback f workCB
+//@   ghost unlock 1 before :: assert registered: imp(len(w.wid) != 0, mapHasId(w.s.rwork, keyid(w.wid)) && ref(mapValId(w.s.rwork, keyid(w.wid))) == ref(w))
+//@   ghost unlock 1 before :: set wincb = store(wincb, ref(w), 1)
+//@   ghost lock 1 after :: set wincb = store(wincb, ref(w), 0)
+//@   ghost exit :: assert retire: idx == len(w.queue)
+//@   ghost exit :: set wst = store(wst, ref(w), 0)
+//@   ensures inv: moninv(w.s) && same(w.s, old(w.s))
+//@   loop 1 invariant basic: held() && w != nil && w.s != nil && same(w.s, old(w.s)) && same(w.wid, old(w.wid))
+//@   loop 1 invariant own: wst[ref(w)] == 2 && wholder[ref(w)] == me && wincb[ref(w)] == 0 && 0 <= idx && idx <= len(w.queue)
+//@   loop 1 invariant inv: moninv(w.s)
+//@
+//@ func (s *Service) startWorker()
+//@   requires s != nil
+//@   modifies all
+//@   ghost call work.processQueue#1 before :: set wst = store(wst, ref(w), 2)
+//@   ghost call work.processQueue#1 before :: set wholder = store(wholder, ref(w), me)
+//@   ghost call work.processQueue#1 before :: set wincb = store(wincb, ref(w), 0)
+//@   ghost call work.processQueue#1 before :: set qhead = qhead + 1
+//@   ghost unlock 1 before :: assert exit.closed: s.workqueue == nil
+//@   loop 1 invariant held() && moninv(s)
+//@   loop 2 invariant held() && moninv(s) && s.workqueue != nil
+//@
+//@ func (s *Service) close()
+//@   requires s != nil && !isNil(s.nc)
+//@   modifies all
+//@   ghost unlock 1 before :: set closing = true
